@@ -2190,4 +2190,67 @@ theorem event_fail_error (q : Quirks) (s : Proto) (a i b : Nat) (e e' : Err) (hs
   | dropped => have := hq _ h; cases this
   | lost => have := hq _ h; cases this
 
+/-- the walk of a failure hands over no join -/
+theorem bub_fail_nosucceed (q : Quirks) (e : Bool) : ∀ atts a i e0 hs, ∀ b vs, Out.succeed b vs ∉ (bubble q e atts a i (.fail e0 hs)).outs := by
+  intro atts
+  induction atts with
+  | nil => intro a i e0 hs b vs ho; simp [bubble] at ho
+  | cons x rest ih =>
+    intro a i e0 hs b vs
+    simp only [bubble]
+    repeat' split
+    all_goals (simp only [Walk.under, List.mem_append, List.mem_cons, List.not_mem_nil, or_false, List.nil_append])
+    all_goals first
+      | exact ih _ _ _ _ _ _
+      | (intro ho; cases ho; done)
+      | (intro ho
+         rcases ho with ho | ho
+         · cases ho
+         · first | (cases ho; done) | exact ih _ _ _ _ _ _ ho)
+
+/-- within one step an attempt does not both fail and hand over -/
+theorem step_fail_excludes_succeed (q : Quirks) (s : Proto) (inp : Inp) (a b : Nat) (e : Err) (vs : List Nat)
+    (h : Out.failAttempt a e ∈ (step q s inp).2) : Out.succeed b vs ∉ (step q s inp).2 := by
+  intro hs
+  rcases step_walk q s inp with hh | ⟨s1, c, i, r, _, _, _, hw⟩
+  · have := hh _ h; cases this
+  · have h1 : Out.failAttempt a e ∈ (bubble q s1.ended.isSome s1.atts c i r).outs := by
+      rcases hw _ h with x | x
+      · cases x
+      · exact x
+    have h2 : Out.succeed b vs ∈ (bubble q s1.ended.isSome s1.atts c i r).outs := by
+      rcases hw _ hs with x | x
+      · cases x
+      · exact x
+    cases r with
+    | done v ups => exact bub_done_nofail _ _ _ _ _ _ _ _ _ h1
+    | fail e0 hs0 => exact bub_fail_nosucceed _ _ _ _ _ _ _ _ _ h2
+
+
+/-- in the output sequence of any run no hand-over of attempt `a` comes after a failure of `a` -/
+theorem run_no_succeed_after_fail (q : Quirks) (s : Proto) (is : List Inp) (hw : WF s) (a : Nat) (e : Err) (vs : List Nat)
+    (pre post : List Out) (h : (run q s is).2 = pre ++ Out.failAttempt a e :: post) : Out.succeed a vs ∉ post := by
+  induction is generalizing s pre with
+  | nil => simp [run] at h
+  | cons i is ih =>
+    simp only [run] at h
+    rcases List.append_eq_append_iff.mp h with ⟨mid, h1, h2⟩ | ⟨mid, h1, h2⟩
+    · -- the failure is output by a later step
+      exact ih _ (wf_evolves (step_evolves q s i) hw) mid h2
+    · -- … or by this step, possibly followed by more outputs of this step
+      cases mid with
+      | nil =>
+        simp only [List.append_nil, List.nil_append] at h1 h2
+        exact ih _ (wf_evolves (step_evolves q s i) hw) [] (by simpa using h2.symm)
+      | cons m mid =>
+        simp only [List.cons_append, List.cons.injEq] at h2
+        obtain ⟨rfl, h2⟩ := h2
+        have hin : Out.failAttempt a e ∈ (step q s i).2 := by rw [h1]; simp
+        rw [h2]
+        intro hs
+        rcases List.mem_append.mp hs with hs | hs
+        · exact step_fail_excludes_succeed q s i a a e vs hin (by rw [h1]; simp [hs])
+        · exact run_dead_no_succeed q _ is a vs (step_fail_dead q s i a hw (Or.inl ⟨e, hin⟩)) hs
+
+
 end Asl.FanProto
